@@ -373,7 +373,9 @@ class Project:
         The name of the path (minus its extension) should be a valid SPDX
         License Identifier.
         """
-        if not path.suffix:
+        # 'OLDAP-2.2.2' is an identifier without a file extension, not
+        # 'OLDAP-2.2' with the extension '.2'.
+        if not path.suffix or path.name in self.license_map:
             raise SpdxIdentifierNotFoundError(f"{path} has no file extension")
         if path.stem in self.license_map:
             return path.stem
